@@ -55,6 +55,8 @@ def build():
     p = Pack("C20", files=[RT, MR])
     install_common(p)
     p.models["fn.__call__"] = lambda interp, fv, args, kwargs: fv.attrs["fn"](interp, args, kwargs)
+    # the tracker process inherits the warning filters of its parent (python -W error, PYTHONWARNINGS=error): warnings.warn may raise
+    p.raising_log_calls = {"warnings.warn"}
     p.log_calls.update({"util.log_to_stderr", "signal.signal", "signal.pthread_sigmask", "f.close", "traceback.print_tb"})
     p.models["sys.exc_info"] = lambda i, *a: (None, None, None)
 
